@@ -501,6 +501,9 @@ struct T16 {
         // assigned into the view
         if constexpr (L::n >= 2 && requires { typename G::Tangent; }) {
           bool done = false;
+          bool swapped = false;
+          // the model needs the source as it was before the call (source and destination may be the same region)
+          Coef src_before = Eigen::Map<const Coef>(mi(c, sr));
           with_src(c, [&](const auto& s) {
             if constexpr (requires { G(s.so3(), s.r3()); }) {
               const G tmp(s.so3(), s.r3());
@@ -523,17 +526,36 @@ struct T16 {
               with_mut(c, [&](auto& m) { m = tmp; });
               done = true;
             } else if constexpr (requires { s.template part<0>(); }) {
-              // Bundle(parts...) from the parts of the source, read through the source's storage kind
-              [&]<std::size_t... I>(std::index_sequence<I...>) {
-                const G tmp(s.template part<I>()...);
-                with_mut(c, [&](auto& m) { m = tmp; });
-              }(std::make_index_sequence<(std::size_t)L::n>{});
-              done = true;
+              // Bundle(parts...) from the parts of the source, read through the source's storage kind;
+              // when the first two members have the same type they are also passed in swapped order
+              constexpr bool can_swap = L::n >= 2 && std::is_same_v<typename G::template PartType<0>, typename G::template PartType<1>>;
+              if constexpr (can_swap) {
+                if (k.idx & 1) {
+                  [&]<std::size_t... I>(std::index_sequence<I...>) {
+                    const G tmp(s.template part<1>(), s.template part<0>(), s.template part<I + 2>()...);
+                    with_mut(c, [&](auto& m) { m = tmp; });
+                  }(std::make_index_sequence<(std::size_t)L::n - 2>{});
+                  swapped = true;
+                  done = true;
+                }
+              }
+              if (!done) {
+                [&]<std::size_t... I>(std::index_sequence<I...>) {
+                  const G tmp(s.template part<I>()...);
+                  with_mut(c, [&](auto& m) { m = tmp; });
+                }(std::make_index_sequence<(std::size_t)L::n>{});
+                done = true;
+              }
             }
           });
           if (done) {
             allow(c, 0, N, true);
-            std::memmove(mi(c, r), mi(c, sr), sizeof(S) * N);
+            if (swapped) {
+              // members 0 and 1 have the same type, hence the same length: exchange their sub-ranges
+              const int l0 = L::parts[0].len;
+              for (int i = 0; i < l0; ++i) std::swap(src_before(i), src_before(l0 + i));
+            }
+            for (int i = 0; i < N; ++i) mi(c, r)[i] = src_before(i);
           } else {
             c.applicable = 0;
           }
